@@ -3,7 +3,7 @@
    unordered call with its input and chunk size, until_all_ready); configurations include FactoryFunctorPool with a
    per-worker quota, whose retirements and replacements are events of the schedule like everything else. *)
 From Coq Require Import ZArith List Bool Arith Permutation.
-From WPU Require Import Common.Val Model.Pool Proofs.PoolP.
+From WPU Require Import Common.Val Model.Pool Proofs.PoolP Proofs.PoolLifeP Proofs.PoolLiveP.
 Import ListNotations.
 Open Scope nat_scope.
 
@@ -29,6 +29,42 @@ Print Assumptions C03_clean_between_calls.
 Theorem C03_step : forall cfg hist s e s', HInv hist s -> fault_free e -> step cfg s e = Some s' -> HInv hist s'.
 Proof. exact hinv_step. Qed.
 Print Assumptions C03_step.
+
+(* the pool never runs out of workers while work is pending: inside a call, with a chunk in the work queue or in a
+   worker and room in the results queue, some worker can move or - if every worker has retired - the replace thread can *)
+Theorem C03_workers_never_run_out : forall cfg hist sched, cfg_ok cfg -> Forall action_ok hist -> fault_free_sched sched ->
+  let s := run cfg (init cfg hist) sched in
+  in_call (s_main s) = true -> full (c_rq_cap cfg) (s_resq s) = false -> (s_workq s <> [] \/ held (s_procs s) <> []) ->
+  exists e, fault_free e /\ step cfg s e <> None.
+Proof.
+  intros cfg hist sched Ok Hh Hs s Hc Fu Hw. destruct (live_run cfg hist sched Ok Hh Hs) as [_ _ _ Ls Lp _].
+  apply (workers_progress cfg s Ok Ls Lp Hc Fu Hw).
+Qed.
+Print Assumptions C03_workers_never_run_out.
+
+(* every worker that has left its loop while the pool is in use is pending replacement: its wid is in the replace
+   queue or in the hands of the replace thread, exactly once, and it is the wid of a worker of the pool *)
+Theorem C03_retired_are_pending : forall cfg hist sched, cfg_ok cfg -> Forall action_ok hist -> fault_free_sched sched ->
+  let s := run cfg (init cfg hist) sched in
+  NoDup (pending s)
+  /\ (exit_class (s_main s) = false -> forall k w, nth_error (s_procs s) k = Some w -> gone w = true -> In (w_id w) (pending s))
+  /\ (forall wid, In wid (pending s) -> exists k w, nth_error (s_procs s) k = Some w /\ w_id w = wid /\ gone w = true).
+Proof.
+  intros cfg hist sched Ok Hh Hs s. destruct (live_run cfg hist sched Ok Hh Hs) as [_ _ _ _ Lp _]. fold s in Lp.
+  split; [apply (p_pnd s Lp)|]. split; [apply (p_pend s Lp) | apply (p_gone s Lp)].
+Qed.
+Print Assumptions C03_retired_are_pending.
+
+(* nothing of the replace protocol leaks into the next call: outside the join of the replace thread its queue holds no
+   stop token, and the thread is not left in its stopped state *)
+Theorem C03_no_stale_stop_token : forall cfg hist sched, cfg_ok cfg -> Forall action_ok hist -> fault_free_sched sched ->
+  let s := run cfg (init cfg hist) sched in
+  s_main s <> MRepJoin -> nones (s_replq s) = 0 /\ s_rep s <> RDone.
+Proof.
+  intros cfg hist sched Ok Hh Hs s Hm. destruct (live_run cfg hist sched Ok Hh Hs) as [_ _ _ Ls _ _]. fold s in Ls.
+  pose proof (s_tok _ _ Ls) as St. destruct (s_main s); try contradiction; destruct (s_rep s); split; try discriminate; Lia.lia.
+Qed.
+Print Assumptions C03_no_stale_stop_token.
 
 (* non-vacuity: FactoryFunctorPool, 2 workers, quota 1 (every chunk retires a worker), three calls incl. an empty one *)
 Example C03_complete_run :
